@@ -287,9 +287,13 @@ def _gb_check(hyps, goal, order, t0):
         return Verdict("undecided", "gb", time.time() - t0, reason="no polynomial hypotheses; goal not identically zero")
     gens = set(G.gens)
     for g in goals:
-        if not g.free_symbols <= gens:
-            return Verdict("undecided", "gb", time.time() - t0, reason="goal mentions symbols the hypotheses do not constrain")
-        _, r = G.reduce(g)
+        extra = sorted(g.free_symbols - gens, key=lambda s_: s_.name)
+        if extra:
+            # parameters that occur only in the goal: a Groebner basis stays one when unused variables are
+            # added to the ring, so reduce in the larger ring
+            _, r = sp.reduced(g, list(G.exprs), *(list(G.gens) + extra), order=order)
+        else:
+            _, r = G.reduce(g)
         if r != 0:
             return Verdict("undecided", "gb", time.time() - t0, reason="goal not in the ideal (remainder non-zero)")
     return Verdict("discharged", "gb", time.time() - t0)
